@@ -15,7 +15,7 @@ ASSUMPTIONS = ["usize is 64 bits"]
 
 def generate(seed, tier):
     rng = Rng(seed + 19)
-    n = {"quick": 4, "thorough": 6, "search": 5}[tier]
+    n = {"quick": 4, "thorough": 5, "search": 5}[tier]
     out = ic.exhaustive(ID, n, True, with_clear=True)
     out += ic.random_seqs(ID, rng, {"quick": 300, "thorough": 3000, "search": 1500}[tier], {"quick": 40, "thorough": 400, "search": 60}[tier], True)
     return out
